@@ -41,28 +41,28 @@ class RealWorld:
         class DH:
             def _q(self, kind, F, N, dt, asset, gen):
                 W.queries.append((kind, dt, asset))
-                t, a = z3.RealVal(repr(_tsec(dt))), c.keyterm(asset) if asset in c.keyorder else z3.IntVal(-1)
+                t, a = c.tterm(dt), c.keyterm(asset) if asset in c.keyorder else z3.IntVal(-1)
                 if c.ceval(N(t, a), lambda r: False, bool):
                     return float('nan')
                 return c.ceval(F(t, a), gen)
 
             def get_asset_latest_bid_ask_price(self, dt, asset):
                 W.queries.append(('bid_ask', dt, asset))
-                t, a = z3.RealVal(repr(_tsec(dt))), c.keyterm(asset)
+                t, a = c.tterm(dt), c.keyterm(asset)
                 bid = float('nan') if c.ceval(SW.BIDNAN(t, a), lambda r: False, bool) else c.ceval(SW.BIDF(t, a), lambda r: round(r.uniform(5, 200), 2))
                 ask = float('nan') if c.ceval(SW.ASKNAN(t, a), lambda r: False, bool) else c.ceval(SW.ASKF(t, a), lambda r: round(bid * r.choice([1.0, 1.01, 1.002]), 2) if bid == bid else 1.0)
                 return (bid, ask)
 
             def get_asset_latest_mid_price(self, dt, asset):
                 W.queries.append(('mid', dt, asset))
-                t, a = z3.RealVal(repr(_tsec(dt))), c.keyterm(asset)
+                t, a = c.tterm(dt), c.keyterm(asset)
                 if c.ceval(SW.MIDNAN(t, a), lambda r: False, bool):
                     return float('nan')
                 return c.ceval(SW.MIDF(t, a), lambda r: round(r.uniform(5, 200), 2) if r.random() < 0.97 else -1.0)
 
         class EX:
             def is_open_at_datetime(self, dt):
-                return bool(c.ceval(SW.OPENF(z3.RealVal(repr(_tsec(dt)))), lambda r: r.random() < 0.6, bool))
+                return bool(c.ceval(SW.OPENF(c.tterm(dt)), lambda r: r.random() < 0.6, bool))
 
         class Fee(FeeModel):
             def _calc_commission(self, *a, **k):
